@@ -1,6 +1,9 @@
 (* CoverTree_Proof.v — the pruning tests of the cover-tree batch query never drop a sample that one
    of the queries below the current query node needs, as long as upper_bound[0] is a valid bound
-   at the moment it is read (which the model audits, see CoverTree_Model.valid_b).
+   at the moment it is read (the model audits that: CoverTree_Model.valid_b; CoverTree_Proof_Audit.v
+   proves that the audit never fails, which turns the results of this file into unconditional ones).
+   The model variant proved here is the committed code (oc = false: after fix F46 the copy sites
+   prune with two query max_dist, like descend).
 
    needed q x     fewer than K samples are strictly closer to q than x: x belongs to every set of
                   "all samples within the K-th smallest distance of q".
